@@ -4,8 +4,10 @@ import (
 	"bytes"
 	"fmt"
 	"math/big"
+	"runtime"
 	"sort"
 	"strings"
+	"sync"
 	"time"
 
 	sdk "github.com/cosmos/cosmos-sdk/types"
@@ -134,6 +136,7 @@ func (c *C18) Ops(s *HState) []engine.Op {
 		for l := 0; l < 3; l++ {
 			ops = append(ops, engine.OpN("Holders", v, 0, l))
 		}
+		ops = append(ops, engine.OpN("Holders", v, -1, 0), engine.OpN("Holders", v, 1, 0))
 	}
 	ops = append(ops, engine.OpN("Price", -1, 0, 0), engine.OpN("Holders", -1, 0, 0))
 	return ops
@@ -316,10 +319,124 @@ func (c *C18) changeOracle(in *hub.Instance, g *c18Ghost, pre c18Stored, boundar
 	}
 }
 
+// ---------------------------------------------------------------------------------------------
+// near-tie grid: power vectors in which one side of a two-value report holds just over / just under half
+// of the stake. The stored price must be the value of the heavier side (exact stakes; the totals are far
+// below 65535/n, so the module's 16-bit normalisation cannot change the majority).
+
+type c18GridCase struct {
+	Powers []int64
+	Low    []bool // validator i reports the low value (100) instead of the high one (300)
+}
+
+func c18GridCases(tier string) []c18GridCase {
+	as := []int64{3, 5, 7, 11, 13, 17, 23, 29, 37, 43, 53, 61, 71, 83, 97, 101, 113, 1666, 5001}
+	if tier == "thorough" {
+		as = nil
+		for a := int64(2); a <= 130; a++ {
+			as = append(as, a)
+		}
+		as = append(as, 1666, 5001, 7919)
+	}
+	var out []c18GridCase
+	add := func(p []int64, low []bool) {
+		for _, x := range p {
+			if x <= 0 {
+				return
+			}
+		}
+		out = append(out, c18GridCase{p, low})
+		inv := make([]bool, len(low))
+		for i := range low {
+			inv[i] = !low[i]
+		}
+		out = append(out, c18GridCase{p, inv})
+	}
+	for _, a := range as {
+		for _, d := range []int64{-2, -1, 1, 2} {
+			for _, b := range []int64{1, a / 3, a / 2} {
+				// one against two: a vs b + c, c = a - b + d
+				add([]int64{a, b, a - b + d}, []bool{true, false, false})
+				// one against three: a vs b + c + e
+				c := (a - b) / 2
+				add([]int64{a, b, c, a - b - c + d}, []bool{true, false, false, false})
+				// two against two: a + b vs c + e, e = a + b - c + d
+				add([]int64{a, b, c + 1, a + b - c - 1 + d}, []bool{true, true, false, false})
+			}
+		}
+	}
+	return out
+}
+
+func c18RunGrid(in *hub.Instance, cs c18GridCase) (string, *engine.Violation) {
+	c := NewC18(cs.Powers)
+	in.InitGenesis(c.Genesis())
+	epoch := in.Oracle.GetCurrentEpoch(in.Ctx())
+	var lowW, highW, W int64
+	for i, v := range c.Vals {
+		set := int64(1)
+		if cs.Low[i] {
+			set = 0
+			lowW += cs.Powers[i]
+		} else {
+			highW += cs.Powers[i]
+		}
+		W += cs.Powers[i]
+		if r := in.DeliverMsg(&oracletypes.MsgPriceClaim{Epoch: epoch, Prices: c18Prices(set), Orchestrator: v.Acc.String()}); !r.OK() {
+			return "claim-rejected", nil
+		}
+	}
+	for {
+		b := in.Height%5 == 0
+		if p := in.NextBlock(5); p != nil {
+			return "block-failure", nil
+		}
+		if b {
+			break
+		}
+	}
+	prices := in.Oracle.GetPrices(in.Ctx())
+	for i, name := range c18Names {
+		lo, hi := sdk.NewDec(100+int64(i)), sdk.NewDec(300+int64(i))
+		var stored sdk.Dec
+		found := false
+		for _, p := range prices.GetList() {
+			if p.Name == name {
+				stored, found = p.Value, true
+			}
+		}
+		if !found {
+			return "no-update", nil
+		}
+		// weight strictly below / above the stored value may not exceed half of the stake
+		below, above := int64(0), int64(0)
+		if lo.LT(stored) {
+			below += lowW
+		}
+		if lo.GT(stored) {
+			above += lowW
+		}
+		if hi.LT(stored) {
+			below += highW
+		}
+		if hi.GT(stored) {
+			above += highW
+		}
+		if 2*below > W || 2*above > W {
+			return "bad", &engine.Violation{Property: "C18", Rule: "stored_price_not_weighted_median", Site: "AttestationHandler.Handle",
+				Detail: fmt.Sprintf("powers %v, validators reporting the low value %v: stored %s = %s although stake %d of %d reported %s and %d reported %s", cs.Powers, cs.Low, name, stored, lowW, W, lo, highW, hi)}
+		}
+	}
+	if lowW > highW {
+		return "low-side-heavier", nil
+	}
+	return "high-side-heavier", nil
+}
+
 func init() {
-	Register("C18", MultiRunner(func(tier string) ([]MultiCase, []string) {
+	base := MultiRunner(func(tier string) ([]MultiCase, []string) {
 		var cases []MultiCase
-		depth, dl := 4, 8*time.Second
+		depth, dl := 4, 12*time.Second
 		vecs := [][]int64{{10, 10, 10}, {1, 1, 1}, {50, 25, 25}, {1, 1}, {66, 34}, {65, 35}, {10, 10, 10, 0}}
 		if tier == "thorough" {
 			depth, dl = 6, 2*time.Minute
@@ -337,5 +454,47 @@ func init() {
 			"only-if direction as the property is worded: liveness (a quorum MUST update) is not demanded",
 			"weighted median = weight strictly below <= W/2 and weight strictly above <= W/2, exact stakes, tolerance n*W/65535 for the module's 16-bit power normalisation",
 		}
-	}))
+	})
+	Register("C18", func(tier string) *Runner {
+		b := base(tier)
+		return &Runner{Replay: b.Replay, Run: func(o RunOpts) Output {
+			out := b.Run(o)
+			if len(out.Violations) > 0 || out.InternalError != "" {
+				return out
+			}
+			cases := c18GridCases(o.Tier)
+			res := make([]string, len(cases))
+			viol := make([]*engine.Violation, len(cases))
+			ch := make(chan int, len(cases))
+			for i := range cases {
+				ch <- i
+			}
+			close(ch)
+			var wg sync.WaitGroup
+			for w := 0; w < runtime.NumCPU(); w++ {
+				wg.Add(1)
+				go func() {
+					defer wg.Done()
+					in := hub.New()
+					for i := range ch {
+						res[i], viol[i] = c18RunGrid(in, cases[i])
+					}
+				}()
+			}
+			wg.Wait()
+			outcomes := map[string]int{}
+			for i := range cases {
+				outcomes[res[i]]++
+				if viol[i] != nil && len(out.Violations) == 0 {
+					out.Violations = append(out.Violations, engine.Found{Violation: *viol[i], Reproduced: 5})
+				}
+			}
+			cov := out.Evidence["coverage"].(map[string]interface{})
+			cov["near_tie_grid_cases"] = len(cases)
+			cov["near_tie_grid_outcomes"] = outcomes
+			cov["near_tie_grid_rule"] = "power vectors (one against two, one against three, two against two) whose two sides differ by 1 or 2 units of stake, both assignments of the low/high price set; every case is one fresh real instance: claims by every validator, epoch boundary, stored prices compared with the heavier side"
+			out.Summary += fmt.Sprintf(" near_tie_grid=%d %v", len(cases), outcomes)
+			return out
+		}}
+	})
 }
